@@ -69,7 +69,7 @@ type caseRun struct {
 	Horizon  bool
 }
 
-var runNames = []string{"first", "repeat+2s(other letter case)", "repeat+1000s"}
+var runNames = []string{"first", "repeat+2s(other letter case)", "repeat+1000s", "then-another-question(the redirect target)"}
 
 func swapCase(s string) string {
 	b := []byte(s)
@@ -97,7 +97,7 @@ func runCase(c Case) caseRun {
 		stateful, _ := hpipe.ChainInfo(c.Chain, c.Trail)
 		runs := 1
 		if stateful {
-			runs = 3
+			runs = 4
 		}
 		for i := 0; i < runs; i++ {
 			q := c.Q
@@ -114,6 +114,11 @@ func runCase(c Case) caseRun {
 			case 2:
 				vs.Advance(1000 * time.Second) // answers have expired (lazy cache: stale hit + background update)
 				q.ID = c.Q.ID ^ 0x00FF
+			case 3:
+				// another question at the same pipeline: the name the redirect rules point to
+				// (what earlier queries left behind must not be served for it)
+				q.Name = hpipe.RedirectTo
+				q.ID = c.Q.ID ^ 0x0F0F
 			}
 			wire := q.Wire()
 			env.Probe.Reset()
@@ -721,6 +726,48 @@ func TestVerifC03(t *testing.T) {
 		if !expired {
 			lastDone = fmt.Sprintf("parts C, B and part A for all chains of length <= %d (+ optional trailing forward)", l)
 		}
+	}
+
+	// ---- part D: longer chains behind a pinned prefix ----------------------------
+	// hosts -> redirect -> cache hands the cache a response that was made for another
+	// question; every plugin (thorough: every pair) behind that prefix, in particular the
+	// ones that swap the query context for a copy
+	curPart = "D pinned prefix"
+	prefix := []string{"hosts_hit", "redirect_hit", "cache"}
+	tailMax := 1
+	if thorough {
+		tailMax = 2
+	}
+	nChainsD := 0
+	for _, tail := range chainsUpTo(alpha, tailMax) {
+		if len(tail) == 0 {
+			continue
+		}
+		for _, trail := range []bool{false, true} {
+			ch := append(append([]string{}, prefix...), tail...)
+			if !trail {
+				// second spelling of the same pipeline: no `accept` behind the cache, the forward
+				// is guarded by !has_resp instead (so the plugins of the tail do run on a hit)
+				ch = append(append([]string{"hosts_hit", "redirect_hit", "cache_plain"}, tail...), "forward_if_none")
+			}
+			nChainsD++
+			_, usesUp := hpipe.ChainInfo(ch, trail)
+			outs := outcomesA()
+			if !usesUp {
+				outs = outs[:1]
+			}
+			for _, q := range queriesA {
+				for _, u := range outs {
+					for _, a := range hpipe.Arrivals {
+						do(Case{Chain: ch, Trail: trail, Q: q, Up: u, Arrival: a})
+					}
+				}
+			}
+		}
+	}
+	res.Bounds["D.chains"] = fmt.Sprintf("%d chains: hosts_hit, redirect_hit, cache + every chain of 1..%d plugins + forward, in two spellings (cache followed by `accept has_resp`; plain cache and a forward guarded by !has_resp)", nChainsD, tailMax)
+	if !expired {
+		lastDone += " and part D"
 	}
 
 	res.States = distinct
